@@ -838,15 +838,29 @@ def r17_5(prog, rep):
         obl(rep, f, f.node, "R17.5", ok, f"{cname}.__str__ prints the shape of the live design_matrix")
     f = prog.fn("matrices.DesignMatrices.__str__")
     shapes = sorted(unparse(n.value) for n in ast.walk(f.node) if isinstance(n, ast.Attribute) and n.attr == "shape")
-    obl(rep, f, f.node, "R17.5", shapes == ["self.common.design_matrix", "self.group.design_matrix", "self.response.design_matrix"],
+    want = ["self.common.design_matrix", "self.group.design_matrix", "self.response.design_matrix"]
+    oks = shapes == want
+    if not oks and shapes and all(sh_.endswith(".design_matrix") for sh_ in shapes):
+        # one `<member>.design_matrix.shape` where member ranges over the three members listed in a table / loop
+        members = {unparse(n) for n in ast.walk(f.node) if isinstance(n, ast.Attribute) and isinstance(n.value, ast.Name) and n.value.id == "self"
+                   and n.attr in ("response", "common", "group")}
+        bases = {sh_[: -len(".design_matrix")] for sh_ in shapes}
+        loopvars = {n.id for c_ in ast.walk(f.node) if isinstance(c_, (ast.comprehension, ast.For)) for n in ast.walk(c_.target) if isinstance(n, ast.Name)}
+        oks = members == {"self.response", "self.common", "self.group"} and bases <= loopvars
+    obl(rep, f, f.node, "R17.5", oks,
         "DesignMatrices.__str__ prints the shapes of the three live matrices", str(shapes))
     # the extra-group marker of the group matrix: widths compared against groups x effect columns
     f = prog.fn("matrices.GroupEffectsMatrix.__str__")
-    cmp_ = [i for i in ast.walk(f.node) if isinstance(i, ast.If) and "term_slice_width" in unparse(i.test)]
+    defs = {unparse(s.targets[0]): unparse(s.value) for s in ast.walk(f.node) if isinstance(s, ast.Assign) and len(s.targets) == 1}
+
+    def test_text(i):
+        t_ = unparse(i.test)
+        return defs.get(t_, t_) if isinstance(i.test, ast.Name) else t_   # a named sub-condition is read through
+
+    cmp_ = [i for i in ast.walk(f.node) if isinstance(i, ast.If) and "term_slice_width" in test_text(i)]
     ok = len(cmp_) == 1
     if ok:
-        t = unparse(cmp_[0].test)
-        defs = {unparse(s.targets[0]): unparse(s.value) for s in ast.walk(f.node) if isinstance(s, ast.Assign) and len(s.targets) == 1}
+        t = test_text(cmp_[0])
         rhs = t.split("!=")[-1].strip() if "!=" in t else ""
         factors = [x.strip() for x in rhs.split("*")]
         per_group = [x for x in factors if x != "len(groups)"]
